@@ -88,7 +88,7 @@ func (manager *Manager) handler() {
 		case <-manager.stopSyn:
 			log.Debug("CLA Manager received closing signal")
 
-			manager.convs.Range(func(_, convElem interface{}) bool {
+			simRangeConvs(manager.convs, func(_, convElem interface{}) bool {
 				manager.Unregister(convElem.(*convergenceElem).conv)
 				return true
 			})
@@ -126,7 +126,7 @@ func (manager *Manager) handler() {
 			}
 
 		case <-activateTicker.C:
-			manager.convs.Range(func(key, convElem interface{}) bool {
+			simRangeConvs(manager.convs, func(key, convElem interface{}) bool {
 				ce := convElem.(*convergenceElem)
 				if ce.isActive() {
 					return true
